@@ -94,7 +94,23 @@ def c1_cv(fb, rep):
         larg = (e.get('args') or [None])[0]
         rep.ob(clause, 'K9 cv discipline', inst + ' is called with a mutex held', bool(held), R.site(f, e), 'held: %s' % sorted(held), f.sname)
         if has_pred:
-            rep.ob(clause, 'K9 cv discipline', inst + ' uses the predicate overload', True, R.site(f, e), '', f.sname)
+            lams = [l for a in e.get('args', []) for l in R.lambdas_in_tree(fb, a)]
+            pf = set()
+            for l in lams:
+                pf |= R.this_fields_read(l)
+            rep.ob(clause, 'K9 cv discipline', inst + ' uses the predicate overload with a predicate over fields of the object', bool(lams) and bool(pf), R.site(f, e),
+                   'predicate reads %s' % sorted(pf), f.sname)
+            pf = {p_ for p_ in pf if p_.count('.') == 1}
+            key = (cls, (cvp or '').replace('this.', ''))
+            ent = pred_fields.setdefault(key, {'fields': set(), 'mutex': set(), 'sites': []})
+            ent['fields'] |= {p_[5:] for p_ in pf}
+            ent['mutex'] |= set(held)
+            ent['sites'].append(inst)
+            # wait(L, pred) is `while (!pred()) wait(L)`: the loop condition is the negated predicate
+            for l in lams:
+                for _, _, ev in l.events():
+                    if ev.get('k') == 'ret' and ev.get('e') is not None:
+                        ent.setdefault('conds', []).append({'k': 'un', 'op': '!', 't': 'bool', 'e': ev['e']})
             continue
         # enclosing loop condition
         hdr = G.loop_header_of(f, b)
